@@ -367,3 +367,131 @@ pub fn bracket_soup(r: &mut Rng) -> String {
     }
     s
 }
+
+// ---------------------------------------------------------------------------------------------
+// KIP's JSON dialect (parser/json.rs): identifier keys, `//` comments, trailing commas
+// ---------------------------------------------------------------------------------------------
+
+const JSON_NUMBERS: &[&str] = &[
+    "0", "-0", "1", "-1", "42", "007", "01", "+1", "1.", ".5", "-.5", "1.5", "-2.25", "1e3", "1E3", "1e+3", "1e-3", "1e", "1e+", "1.e5", "1.5e",
+    "18446744073709551615", "18446744073709551616", "-9223372036854775808", "-9223372036854775809", "9223372036854775807", "99999999999999999999999",
+    "1e308", "1e309", "1.7976931348623157e308", "1.7976931348623158e308", "1.7976931348623159e308", "17976931348623158e292", "0.00000000001e400",
+    "1e-400", "0e999999999999999999999", "1e999999999999999999999", "1e-999999999999999999999", "0.0", "-0.0", "-0e0", "5e-324", "2.5e-324", "123456789012345678901234567890.5",
+    "1.0", "100", "-", "--1", "1-", "0x10", "1_000", "Infinity", "NaN", "-Infinity", "1e1.5", "1..2", "00", "-00", "0.0e0", "9.53161982818731310",
+];
+const JSON_STRINGS: &[&str] = &[
+    r#""""#, r#""a""#, r#""key""#, r#""é中😀""#, r#""\n\t\r\b\f\/\\\"""#, r#""\u0041""#, r#""\u00e9""#, r#""\ud83d\ude00""#, r#""\ud83d""#, r#""\ude00""#, r#""\ud83d\u0041""#,
+    r#""\uD83D\uDE00""#, r#""\u12""#, r#""\u+041""#, r#""\u 041""#, r#""\x41""#, r#""\a""#, r#""\U0041""#, r#""\u0000""#, r#""\u001f""#, r#""\uffff""#, r#""\ud7ff\ue000""#, "\"tab\there\"", "\"nl\nhere\"",
+    "\"del\u{7f}ok\"", r#""// not a comment""#, r#""[{(""#, r#""a\"b""#, r#""\\""#, r#""\\\"""#, r#""unterminated"#, r#""a"#, r#""\"#, r#""\ud83d\"#, r#""\ud83d\u"#, r#""\ud83d\ude0"#, r#""\u0061""#,
+];
+const JSON_KEYS: &[&str] = &["a", "b", "name", "_x", "A1", "type", "null", "true", "k_9", "9a", "é", "a-b", "", "a b"];
+
+fn json_value_text(r: &mut Rng, depth: u32, out: &mut String) {
+    let trivia = |r: &mut Rng, out: &mut String| {
+        if r.chance(1, 3) {
+            out.push_str(*r.pick(&[" ", "  ", "\n", "\t", " // c\n", "//\n", " // \" [ {\n", "\u{a0}", "\u{c}", "\r\n"]));
+        }
+    };
+    let k = r.below(if depth == 0 { 6 } else { 10 });
+    match k {
+        0 => out.push_str(*r.pick(&["null", "true", "false", "null", "true", "false", "NULL", "True", "nul", "nulll", "truefalse", "undefined"])),
+        1 | 2 => out.push_str(*r.pick(JSON_NUMBERS)),
+        3 | 4 => out.push_str(*r.pick(JSON_STRINGS)),
+        5 => {
+            // a random decimal
+            if r.chance(1, 3) {
+                out.push('-');
+            }
+            out.push_str(&format!("{}", r.below(100000)));
+            if r.chance(1, 2) {
+                out.push_str(&format!(".{}", r.below(1000)));
+            }
+            if r.chance(1, 3) {
+                out.push_str(&format!("e{}", r.range(-320, 320)));
+            }
+        }
+        6 | 7 => {
+            out.push('[');
+            let n = r.usize(4);
+            trivia(r, out);
+            for i in 0..n {
+                if i > 0 {
+                    trivia(r, out);
+                    out.push(',');
+                    trivia(r, out);
+                }
+                json_value_text(r, depth - 1, out);
+            }
+            match r.below(12) {
+                0 => out.push(','),
+                1 => out.push_str(" , "),
+                2 => out.push_str(",,"),
+                _ => {}
+            }
+            trivia(r, out);
+            if !r.chance(1, 25) {
+                out.push(']');
+            }
+        }
+        _ => {
+            out.push('{');
+            let n = r.usize(4);
+            trivia(r, out);
+            for i in 0..n {
+                if i > 0 {
+                    trivia(r, out);
+                    out.push(',');
+                    trivia(r, out);
+                }
+                match r.below(8) {
+                    0 | 1 => out.push_str(*r.pick(JSON_STRINGS)),
+                    2 => out.push_str(*r.pick(&["\"a\"", "\"\\u0061\"", "\"b\"", "\"name\""])),
+                    _ => out.push_str(*r.pick(JSON_KEYS)),
+                }
+                trivia(r, out);
+                if !r.chance(1, 25) {
+                    out.push(':');
+                }
+                trivia(r, out);
+                json_value_text(r, depth - 1, out);
+            }
+            if r.chance(1, 8) {
+                out.push(',');
+            }
+            trivia(r, out);
+            if !r.chance(1, 25) {
+                out.push('}');
+            }
+        }
+    }
+}
+
+/// A text in (or near) KIP's JSON dialect.
+pub fn json_text(r: &mut Rng) -> String {
+    let mut s = String::new();
+    if r.chance(1, 4) {
+        s.push_str(*r.pick(&[" ", "\n", "// lead\n", "\u{feff}", "\t// a\n// b\n"]));
+    }
+    if r.chance(1, 12) {
+        // nests around the depth limit
+        let d = *r.pick(&[60usize, 63, 64, 65, 66, 70]);
+        let open = *r.pick(&["[", "{a:", "[{b:["]);
+        let close = match open {
+            "[" => "]",
+            "{a:" => "}",
+            _ => "]}]",
+        };
+        let per = open.chars().filter(|c| "[{".contains(*c)).count();
+        let n = d / per;
+        s.push_str(&open.repeat(n));
+        s.push_str(*r.pick(&["1", "null", "\"x\"", ""]));
+        s.push_str(&close.repeat(n));
+    } else {
+        let depth = 1 + r.below(4) as u32;
+        json_value_text(r, depth, &mut s);
+    }
+    if r.chance(1, 4) {
+        s.push_str(*r.pick(&[" ", "\n", " // trail", " x", ",", " 1", "\u{a0}"]));
+    }
+    s
+}
